@@ -45,6 +45,11 @@ func Faults() []Fault {
 		{Name: "under-self-closed", Lines: rel("%foo/", "\t%b under self closed")},
 		{Name: "under-one-line-comment", Lines: rel("/ a comment", "\t%b under comment")},
 		{Name: "content-after-slash", Lines: rel("%foo/ content")},
+		// … with a white-space marker, attributes or an object reference in front of the slash
+		{Name: "content-after-marker-and-slash", Lines: rel("%img>/ stray")},
+		{Name: "content-after-both-markers-and-slash", Lines: rel("%div<>/ stray")},
+		{Name: "content-after-attributes-marker-and-slash", Lines: rel("%img{src: \"a.png\"}</ stray")},
+		{Name: "content-after-attributes-and-slash", Lines: rel("%foo{a: \"b\"}/ stray")},
 		{Name: "unknown-filter", Lines: rel(":nosuchfilter", "\tbody")},
 		{Name: "unknown-attribute-command", Lines: rel("%p{@nosuch: #{m0}} x")},
 		{Name: "unknown-at-command", Lines: rel("= @nosuch thing")},
